@@ -88,8 +88,14 @@ theorem compile_below (ar : CellId → Option Nat) (params : List Val) (n : Node
         | ok v => exact hk v
         | err e => exact hh _ _
       · exact hh _ _
-  | .readN r, k, h, _, hk, _ => by simp only [compile, CallsBelow]; exact hk
-  | .readA r, k, h, _, hk, _ => by simp only [compile, CallsBelow]; exact hk
+  | .readN r, k, h, _, hk, hh => by
+    simp only [compile, CallsBelow]; intro o; cases o with
+    | some v => exact hk v
+    | none => exact hh _ _
+  | .readA r, k, h, _, hk, hh => by
+    simp only [compile, CallsBelow]; intro o; cases o with
+    | some v => exact hk v
+    | none => exact hh _ _
   | .raise e, k, h, _, _, hh => by simp only [compile]; exact hh _ _
   | .try_ a c b, k, h, hc, hk, hh => by
     simp only [callsBelowId, Bool.and_eq_true] at hc
